@@ -177,6 +177,10 @@ func runC10(c *eng.Ctx) {
 	ruleUnitDiscipline(c)
 	c.Floor(8)
 
+	c.Rule("R01.8", "K5")
+	ruleLogShapes(c)
+	c.Floor(20)
+
 	// ---- R10.5 termination on sparse logs
 	c.Rule("R10.5", "K1")
 	sparseTermination(c, "server.(*partition).newSubscribeLoop$1", eng.Call(1, cl+"MessageReader.ReadMessage"), "stopOffset")
